@@ -1843,13 +1843,15 @@ pub fn stress_strategy(kind: Kind, async_pct: u32) -> BoxedStrategy<StressCase> 
                 let wscript = proptest::collection::vec(
                     prop_oneof![
                         4 => Just(SOp::Wait),
-                        4 => (0u32..8, 1i64..4).prop_map(|(k, cost)| SOp::Insert { k, cost, ttl_ms: 0 }),
-                        1 => (0u32..8).prop_map(|k| SOp::Remove { k }),
+                        // (TTL entries re-inserted and removed in place: the client side then works on
+                        // the expiry index too, concurrently with what clear()/close() do to it)
+                        4 => (0u32..5, 1i64..4, prop_oneof![Just(0u32), Just(3_600_000u32), Just(7_200_000u32)]).prop_map(|(k, cost, ttl_ms)| SOp::Insert { k, cost, ttl_ms }),
+                        1 => (0u32..5).prop_map(|k| SOp::Remove { k }),
                         1 => (0u16..2000).prop_map(SOp::Spin),
                     ],
                     2..14,
                 );
-                let cscript = proptest::collection::vec(prop_oneof![2 => Just(SOp::Clear), 2 => (0u16..3000).prop_map(SOp::Spin), 1 => (0u32..8, 1i64..4).prop_map(|(k, cost)| SOp::Insert { k, cost, ttl_ms: 0 })], 1..8);
+                let cscript = proptest::collection::vec(prop_oneof![2 => Just(SOp::Clear), 2 => (0u16..3000).prop_map(SOp::Spin), 1 => (0u32..5, 1i64..4, prop_oneof![Just(0u32), Just(3_600_000u32)]).prop_map(|(k, cost, ttl_ms)| SOp::Insert { k, cost, ttl_ms })], 1..8);
                 let xscript = (proptest::collection::vec((0u16..4000).prop_map(SOp::Spin), 0..4)).prop_map(|mut v| {
                     v.push(SOp::Close);
                     v
